@@ -773,13 +773,10 @@ func (s *state) alterType(b *sqlx.Builder, alter *changeGroup, t *schema.Table, 
 		}
 		b.P("TYPE", f)
 	default:
-		var (
-			f   string
-			err error
-		)
-		if e, ok := c.To.Type.Type.(*schema.EnumType); ok {
-			f = s.enumIdent(e)
-		} else if f, err = FormatType(c.To.Type.Type); err != nil {
+		// Format the type like columns are defined, as user-defined
+		// types (and arrays of them) are qualified with their schema.
+		f, err := s.formatType(c.To.Type.Type)
+		if err != nil {
 			return err
 		}
 		b.P("TYPE", f)
